@@ -120,17 +120,22 @@ func compatibleWith(r *gen.R, sa []int) []int {
 
 func c14Pair(c *Ctx, sa, sb []int, dt ref.DType) {
 	a := c.R.Tensor(dt, sa, gen.FillUnique, 0)
-	b := c.R.Tensor(dt, sb, gen.FillUnique, 0)
+	dtB := dt
+	if c.R.Chance(0.1) { // the helpers never look at the element types: operands of two types
+		dtB = gen.Data13[c.R.Intn(len(gen.Data13))]
+		c.Count("pairs-with-two-element-types", 1)
+	}
+	b := c.R.Tensor(dtB, sb, gen.FillUnique, 0)
 	// make b's values disjoint from a's so a swap of operands is visible
 	for i := range b.Bits {
 		switch {
-		case dt.IsFloat():
-			b.Bits[i] = ref.EncF(dt, b.F(i)+1000)
-		case dt != ref.Bool && dt != ref.I8 && dt != ref.U8:
-			b.Bits[i] = ref.Wrap(dt, b.Bits[i]+1000)
+		case dtB.IsFloat():
+			b.Bits[i] = ref.EncF(dtB, b.F(i)+1000)
+		case dtB != ref.Bool && dtB != ref.I8 && dtB != ref.U8 && dtB != ref.C64 && dtB != ref.C128:
+			b.Bits[i] = ref.Wrap(dtB, b.Bits[i]+1000)
 		}
 	}
-	desc := fmt.Sprintf("%v|%v|%v", sa, sb, dt)
+	desc := fmt.Sprintf("%v|%v|%v|%v", sa, sb, dt, dtB)
 	c.SetCase("broadcast %v with %v (%v)", sa, sb, dt)
 	if !ref.ShapeEq(sa, sb) {
 		c.Nontrivial(desc)
